@@ -62,23 +62,25 @@ func vxRunStream(msize int, stream []byte, cuts []int) ([]vxSeenReq, []byte, boo
 	vxLock()
 	seen = nil
 	vxUnlock()
+	up := func() bool { // the server still has the connection (a peer cannot push bytes into a closed one)
+		for range kit.srv.conns {
+			return true
+		}
+		return false
+	}
 	prev := 0
 	for _, c := range cuts {
-		if c > prev {
+		if c > prev && up() {
 			nc.in <- stream[prev:c]
 			vxQuiesce()
 			prev = c
 		}
 	}
-	if prev < len(stream) {
+	if prev < len(stream) && up() {
 		nc.in <- stream[prev:]
 		vxQuiesce()
 	}
-	alive := false
-	for range kit.srv.conns {
-		alive = true
-	}
-	return seen, nc.wire[mark:], alive
+	return seen, nc.wire[mark:], up()
 }
 
 func vxH13Srv(msize int, nreq int, paymax int, ncuts int) {
